@@ -558,3 +558,85 @@ V('v03.11', 'C03', 'F', 'C03.R4', 'double definition keeps the first silently',
 V('v03.12', 'C03', 'F', 'C03.R6', 'later mention replaces the earlier symbol position',
   (PARSER, 'parse_model', 'symbols[name] = symbols.get(name, symbol).combine(symbol)', 'symbols[name] = symbols.pop(name, symbol).combine(symbol)'))
 V('v03.s1', 'C03', 'S', None, 'affine rewrite of default end', (IFACE, 'SolverMixin.iter_periods', 'end = self.span[-1 - self.leads]', 'end = self.span[-(self.leads + 1)]'))
+
+# ---------------------------------------------------------------------------
+# C13
+# ---------------------------------------------------------------------------
+V('v13.1', 'C13', 'F', 'C13.R1', 'revert F6: exec in the syntax check',
+  (PARSER, 'parse_model', "                        compile(e, '<string>', 'exec')\n                    except SyntaxError:",
+   "                        exec(e)\n                    except NameError:\n                        pass\n                    except SyntaxError:"))
+V('v13.1b', 'C13', 'F', 'C13.R1', 'build_model execs a different text',
+  (PARSER, 'build_model', 'exec(model_definition_string, globals(), locals_)', "exec(model_definition_string + chr(10) + symbols[0].code, globals(), locals_)"))
+V('v13.2', 'C13', 'F', 'C13.R2', 'revert F7: unescaped template',
+  (PARSER, 'parse_equation', """        pieces.append(escape_braces(equation[position:start]))
+        pieces.append('{}')
+        position = end
+
+    pieces.append(escape_braces(equation[position:]))""", """        pieces.append(equation[position:start])
+        pieces.append('{}')
+        position = end
+
+    pieces.append(equation[position:])"""))
+V('v13.2b', 'C13', 'F', 'C13.R2', 'last piece unescaped',
+  (PARSER, 'parse_equation', "    pieces.append(escape_braces(equation[position:]))", "    pieces.append(equation[position:])"))
+V('v13.2c', 'C13', 'F', 'C13.R2', 'escape function escapes only {',
+  (PARSER, 'parse_equation', "return text.replace('{', '{{').replace('}', '}}')", "return text.replace('{', '{{')"))
+V('v13.3', 'C13', 'F', 'C13.R3', 'int() error not converted', (PARSER, 'parse_terms', 'except ValueError as e:', 'except KeyError as e:'))
+V('v13.4', 'C13', 'F', 'C13.R5a', 'revert F11',
+  (PARSER, 'parse_equation_terms', """    if not any(filter(lambda x: x.type == Type.ENDOGENOUS, lhs_terms)):
+        raise ParserError(
+            f"Failed to find a variable on the left-hand side of: '{equation}'"
+        )
+""", ''))
+V('v13.5', 'C13', 'F', 'C13.R5b', 'revert F15',
+  (PARSER, 'parse_model', """                    if s.type != Type.VERBATIM:
+                        body = ast.parse(e).body
+
+                        if not (
+                            len(body) == 1
+                            and isinstance(body[0], ast.Assign)
+                            and len(body[0].targets) == 1
+                            and isinstance(body[0].targets[0], ast.Subscript)
+                        ):
+                            problem_statements.append((i, statement, e))
+                            break
+""", ''))
+V('v13.5b', 'C13', 'F', 'C13.R5b', 'statement-kind test forgets the single target',
+  (PARSER, 'parse_model', "                            and len(body[0].targets) == 1\n", ''))
+V('v13.5c', 'C13', 'F', 'C13.R5b', 'statement-kind failure ignored',
+  (PARSER, 'parse_model', """                            and isinstance(body[0].targets[0], ast.Subscript)
+                        ):
+                            problem_statements.append((i, statement, e))
+                            break""", """                            and isinstance(body[0].targets[0], ast.Subscript)
+                        ):
+                            pass"""))
+V('v13.6', 'C13', 'F', 'C13.R7', 'revert F16',
+  (PARSER, 'split_equations_iter', """    if not complete_verbatim_block:
+        raise ParserError(
+            'Failed to find closing code fence for the verbatim block '
+            'beginning: ' + '\\n'.join(buffer)
+        )
+""", ''))
+V('v13.6b', 'C13', 'F', 'C13.R7', 'unmatched-bracket check dropped',
+  (PARSER, 'split_equations_iter', """    if unmatched_parentheses != 0:
+        raise ParserError(
+            'Failed to identify any equations in the following, '
+            'owing to unmatched brackets: ' + '\\n'.join(buffer)
+        )
+""", ''))
+V('v13.7', 'C13', 'F', 'C13.R4', 'new reserved attribute (new table entry, not the known finding)',
+  (MODELS, 'BaseModel.__init__', "        self.add_attribute('engine', engine)\n", "        self.add_attribute('engine', engine)\n        self.add_attribute('solver', None)\n"))
+V('v13.8', 'C13', 'F', 'C13.R3', 'misplaced bracket raises ValueError',
+  (PARSER, 'split_equations_iter', """                raise ParserError(
+                    'Found closing bracket before""", """                raise ValueError(
+                    'Found closing bracket before"""))
+V('v13.9', 'C13', 'F', 'C13.R3', 'new unchecked lookup: Type[...] on raw text',
+  (PARSER, 'parse_equation_terms', "    left, right = equation.split('=', maxsplit=1)\n", "    left, right = equation.split('=', maxsplit=1)\n    _ = Type[left.strip()]\n"))
+V('v13.10', 'C13', 'F', 'C13.R6', 'while loop in the splitter',
+  (PARSER, 'split_equations_iter', "        hash_position = line.find('#')\n", "        hash_position = line.find('#')\n        while hash_position > 0 and line[hash_position - 1] == '\\\\':\n            hash_position = line.find('#', hash_position)\n"))
+V('v13.11', 'C13', 'F', 'C13.R3', 'KEYWORD group renamed without a Type member',
+  (PARSER, '', 'P<_KEYWORD>', 'P<_KEYWORDS>'))
+V('v13.s1', 'C13', 'S', None, 'ast.parse via compile(PyCF_ONLY_AST)',
+  (PARSER, 'parse_model', 'body = ast.parse(e).body', "body = compile(e, '<string>', 'exec', ast.PyCF_ONLY_AST).body"))
+V('v13.s2', 'C13', 'S', None, 'escape inlined',
+  (PARSER, 'parse_equation', "    pieces.append(escape_braces(equation[position:]))", "    pieces.append(equation[position:].replace('{', '{{').replace('}', '}}'))"))
